@@ -344,6 +344,49 @@ def slave_cases(ctx, rep, n):
             break
 
 
+def slave_default_tables(rep):
+    """a slave context built with ANY subset of its four tables left out (the constructor supplies a default block for each
+    missing one), both zero modes: the four tables are four tables - a write through one function code changes exactly the
+    addressed cells of that table and is seen by no other table, given or defaulted.  Checked on the real context against four
+    independent maps."""
+    import itertools
+    names = {'d': 'di', 'c': 'co', 'i': 'ir', 'h': 'hr'}
+    fx_of = {'d': 2, 'c': 1, 'i': 4, 'h': 3}
+    for zero in (False, True):
+        for r in range(0, 5):
+            for given in itertools.combinations('dcih', r):
+                desc = {'zero': zero, 'zconf': 'explicit'}
+                kw = {names[t]: ModbusSequentialDataBlock(0, [0] * 40) for t in given}
+                s = build_slave_context(desc, **kw)
+                case = {'kind': 'slave-defaults', 'zero': zero, 'given': [names[t] for t in given]}
+                rep.case(('slave-defaults', zero, given), nontrivial=True, tag='slave-defaults')
+                spec = {t: {} for t in 'dcih'}
+                bad = None
+                try:
+                    for k, t in enumerate('dcih'):
+                        vals = [1, 0, 1] if t in 'dc' else [1000 * (k + 1) + 1, 1000 * (k + 1) + 2, 1000 * (k + 1) + 3]
+                        a = 5 + k
+                        if not s.validate(fx_of[t], a, 3):
+                            bad = 'table %s rejects the in-range write (%d, 3)' % (names[t], a)
+                            break
+                        s.setValues(fx_of[t], a, list(vals))
+                        for j, v in enumerate(vals):
+                            spec[t][a + j] = v
+                        for u in 'dcih':
+                            got = [int(x) for x in s.getValues(fx_of[u], 0, 20)]
+                            exp = [spec[u].get(x, 0) for x in range(20)]
+                            if got != exp:
+                                bad = 'after the write to %s, table %s reads %r, expected %r' % (names[t], names[u], got, exp)
+                                break
+                        if bad:
+                            break
+                except Exception as e:  # noqa
+                    bad = 'raised ' + errkind(e)
+                if bad:
+                    rep.violation('a write through one table of a slave context (some tables defaulted) is not confined to the addressed cells '
+                                  'of that table', case, observed=bad)
+
+
 # ------------------------------------------------------------------ server context
 def server_ctx_cases(ctx, rep, n):
     rng = ctx.rng
@@ -451,6 +494,7 @@ def run(ctx):
         check_block_cases(ctx, rep, cases)
         done += batch
     slave_cases(ctx, rep, ctx.scale(2000, 60000))
+    slave_default_tables(rep)
     server_ctx_cases(ctx, rep, ctx.scale(2000, 60000))
     return rep
 
@@ -460,6 +504,8 @@ def replay(ctx, payload):
     c = payload['case']
     if c['kind'] == 'block':
         check_block_cases(ctx, rep, [(c['block'], c['ops'], tuple(c['window']))])
+    elif c['kind'] == 'slave-defaults':
+        slave_default_tables(rep)
     elif c['kind'] == 'sctx' and 'ctor' in c:
         # registry isolation between contexts of one process: register on one default-built context, build another
         first = ModbusServerContext(single=False)
